@@ -287,6 +287,29 @@ def run_sched(pid, spec, tier, seed, work, t0, no_prove):
     impl, fails = C.run_sharded(har, bare, work, "impl", env=env)
     drvl, dfails = C.run_sharded(drv, cases, work, "drv", env=env)
     v = C.compare(cases, impl, drvl, fails)
+    use_n = 0
+    if pid == "C13":
+        # "and use": queries on a shared zone made by different threads (each query on a thread of
+        # its own, so every hidden hint was left by ANOTHER thread) must give the stateless answer
+        ucases, uzones = gen_zone.gen_c14("quick" if tier == "quick" else "thorough", C.Rng(seed * 31 + 13))
+        ucases = [("x" + c[1:]) for c in ucases if c.startswith("hbt ") or c.startswith("hmt ")]
+        if tier == "quick":
+            ucases = ucases[:12000]
+        uzt = os.path.join(work, "uzones.txt")
+        gen_zone.write_table(uzt, uzones)
+        uenv = {"VERIF_ZONES": uzt}
+        uhar, ulog = C.build_harness()
+        if uhar is None:
+            p = C.write_replay(pid, {"property": pid, "kind": "build-failure", "detail": (ulog or "")[-2000:]})
+            print("VIOLATION property=%s replay=%s no-failing-input-found" % (pid, p))
+            return 1
+        uimpl, ufails = C.run_sharded(uhar, ucases, work, "uimpl", env=uenv)
+        udrv, _uf = C.run_sharded(drv, ucases, work, "udrv", env=uenv)
+        uv = C.compare(ucases, uimpl, udrv, ufails)
+        v.prop_fail += uv.prop_fail
+        v.corr_fail += uv.corr_fail
+        use_n = len(ucases)
+        zones = zones + [z for z in uzones if any(it[1].split()[1] == z[0] for it in uv.prop_fail[:3])]
     # ThreadSanitizer stress (C13 only)
     tsan_note = {}
     tsan_bad = None
@@ -352,7 +375,7 @@ def run_sched(pid, spec, tier, seed, work, t0, no_prove):
            "trusted_base": C.TRUSTED_BASE + ["thread harness with a parking zone_info_source_factory; ThreadSanitizer (g++ -fsanitize=thread)"],
            "constants_tie": const_status, "evaluations": len(cases), "distinct_nontrivial": len(set(cases)),
            "rule": "every interleaving of Start/Release events of k loader threads (k<=3 quick, <=4 thorough) over name assignments from {valid A, valid B, invalid X, fixed-offset, UTC}, followed by random repeat loads; each schedule executed in a fresh process and compared with the model's exec; non-trivial = distinct schedule",
-           "samples": samples, "schedules": len(cases), "tsan": tsan_note, "correspondence_mismatches": len(v.corr_fail),
+           "samples": samples, "schedules": len(cases), "cross_thread_use_queries": use_n, "tsan": tsan_note, "correspondence_mismatches": len(v.corr_fail),
            "known_findings_hit": sorted(reported), "exhaustive": True}
     C.write_evidence(pid, tier, seed, cov, time.time() - t0, violations,
                      ["std::mutex / std::atomic / function-local statics behave as the C++ memory model says", "the data source is a function of the name"])
